@@ -3,7 +3,7 @@
    [ms] is one of the orders in which the Go code may put the stream [s] on the channel (map iterations are free);
    [client ms] is what a policy-sync client holds after applying [ms] in order. *)
 From Coq Require Import List Arith Bool Permutation.
-From Verif.C31 Require Import Model Spec ListedOnce Proofs Final Final2 Oracle2.
+From Verif.C31 Require Import Model Spec ListedOnce Proofs Final Final2 Oracle2 Split SplitProofs.
 Import ListNotations.
 
 (* The Processor never panics on a history the calculation graph can produce. *)
@@ -84,6 +84,28 @@ Theorem c31_listed_once_visits_once : forall e, listed_once e = true -> has_dup 
 Proof. exact listed_once_nodup. Qed.
 Print Assumptions c31_listed_once_visits_once.
 
+(* IP set messages above MaxMembersPerMessage.  PARTIAL with respect to the property: the two theorems below are complete
+   statements about the splitters splitIPSetUpdate / splitIPSetDeltaUpdate as functions (Split.v; tied to the real
+   functions by the correspondence run on lists around 82200 members) - for EVERY chunk size n >= 1, applying the
+   split messages in order gives the client exactly the set the unsplit message would give, and every message fits.
+   What is missing: the Processor model (Model.v) and the stream theorems above assume fewer than MaxMembersPerMessage
+   members per update, i.e. they are not re-proved with multi-message blocks inside the unordered groups.
+   Note the hypothesis of the delta theorem: no member is both added and removed by one delta (the calculation graph
+   coalesces deltas that way); without it a removal chunk sent before a later addition chunk would be overridden. *)
+Theorem c31_split_update_complete_partial : forall n s l cur, 1 <= n ->
+  Forall (fits n) (split_update n s l) /\
+  exists m', fold_left sapply (split_update n s l) cur = Some m' /\ forall x, In x m' <-> In x l.
+Proof. exact split_update_complete. Qed.
+Print Assumptions c31_split_update_complete_partial.
+
+Theorem c31_split_delta_complete_partial : forall n s added removed m0, 1 <= n ->
+  (forall x, In x added -> ~ In x removed) ->
+  Forall (fits n) (split_delta n s added removed) /\
+  exists m', fold_left sapply (split_delta n s added removed) (Some m0) = Some m'
+    /\ forall x, In x m' <-> In x (members_delta m0 added removed).
+Proof. exact split_delta_complete. Qed.
+Print Assumptions c31_split_delta_complete_partial.
+
 (* Non-vacuity: a valid history with IP sets, a policy, a profile, two workloads, a re-join and a leave; workload 0
    is connected on its second channel, whose stream has unordered groups with more than one message. *)
 Definition ex_rules (v : nat) (a b : list id) : rules := mkRules v [[a; []; []; []; []; []; []; []; b]] [].
@@ -114,3 +136,9 @@ Definition canon_case (ops : list op) : case :=
          (combine (seq 0 (length (joins_of ops))) (joins_of ops))).
 Example c31_example_agrees : check_case (canon_case ex_ops) = (true, true).
 Proof. vm_compute. reflexivity. Qed.
+
+(* Non-vacuity of the split theorems: chunk size 2. *)
+Example c31_example_split :
+  split_update 2 0 [1; 2; 3; 4; 5] = [MIPSetUpdate 0 [1; 2]; MIPSetDelta 0 [3; 4] []; MIPSetDelta 0 [5] []]
+  /\ split_delta 2 0 [1; 2; 3] [7; 8; 9] = [MIPSetDelta 0 [1; 2] []; MIPSetDelta 0 [3] [9]; MIPSetDelta 0 [] [7; 8]].
+Proof. vm_compute. split; reflexivity. Qed.
